@@ -738,15 +738,15 @@ type job struct {
 }
 
 type shard struct {
-	evals, refMatch, ref404, ref405             int64
-	compiled, rejected, acceptedUnexpectedly    int64
-	boots                                       int64
-	classes                                     map[classKey]struct{}
-	finds                                       map[string]finding
-	infra                                       []string
-	rawCache                                    map[reqSpec]string
-	byLevelCfg, byLevelReq                      [4]int64
-	outcomes                                    map[outcomeKey]struct{}
+	evals, refMatch, ref404, ref405          int64
+	compiled, rejected, acceptedUnexpectedly int64
+	boots                                    int64
+	classes                                  map[classKey]struct{}
+	finds                                    map[string]finding
+	infra                                    []string
+	rawCache                                 map[reqSpec]string
+	byLevelCfg, byLevelReq                   [4]int64
+	outcomes                                 map[outcomeKey]struct{}
 }
 
 func allShapes(chans []int, matches []int) []routeSpec {
